@@ -121,8 +121,35 @@ pub fn pack_info_str(info: &jbk::reader::PackInfo) -> String {
 
 /// Dump everything `plan` names from the container whose entry point is `path`.
 pub fn dump_container(path: &Path, plan: &Plan) -> Dump {
+    dump_container_with(path, plan, None)
+}
+
+/// A locator that knows where each pack is by its uuid alone (an application-side catalogue): the recorded location is not
+/// looked at.
+pub struct UuidLocator(pub std::collections::HashMap<uuid::Uuid, std::path::PathBuf>);
+
+impl jbk::reader::PackLocatorTrait for UuidLocator {
+    fn locate(&self, uuid: uuid::Uuid, _helper: &str) -> jbk::Result<Option<jbk::Reader>> {
+        Ok(match self.0.get(&uuid) {
+            Some(p) if p.is_file() => Some(jbk::Reader::from(jbk::FileSource::open(p)?)),
+            _ => None,
+        })
+    }
+}
+
+/// Same dump, the container opened with an application locator (`Container::new_with_locator`) when one is given.
+pub fn dump_container_with(path: &Path, plan: &Plan, locator: Option<std::sync::Arc<dyn jbk::reader::PackLocatorTrait>>) -> Dump {
     let mut d = Dump::new();
-    let container = match item(&mut d, "open".into(), || Container::new(path).map_err(|e| e.to_string()), |_| "opened".into()) {
+    let opened = item(
+        &mut d,
+        "open".into(),
+        || match &locator {
+            Some(l) => Container::new_with_locator(path, l.clone()).map_err(|e| e.to_string()),
+            None => Container::new(path).map_err(|e| e.to_string()),
+        },
+        |_| "opened".into(),
+    );
+    let container = match opened {
         Some(c) => c,
         None => {
             if plan.checks {
